@@ -173,7 +173,7 @@ fn same_as_parsed(repr: &[u8], n_labels: usize) {
     }
 }
 
-// @harness props=C12,C13 tier=quick mem=3 t=600 fn="Name::try_from_uncompressed,Name::wire_repr,Name::wire_repr_to,RdataSet::iter"
+// @harness props=C12,C13 tier=quick mem=3 t=600 kani="--no-assertion-reach-checks" fn="Name::try_from_uncompressed,Name::wire_repr,Name::wire_repr_to,RdataSet::iter"
 //   bound="the three pool names a. b. A.b. and one 2-element RDATA set; concrete; unwind 8"
 //   sym="none (sanity check: stack-built Name views equal the parsed names; the RdataSet view iterates to the intended RDATA)"
 #[kani::proof]
@@ -198,7 +198,7 @@ fn c12_inputs_wellformed() {
 // 1. limits, try_push, with_rollback
 // --------------------------------------------------------------------------
 
-// @harness props=C12 tier=quick mem=3 t=600 fn="Writer::new"
+// @harness props=C12 tier=quick mem=3 t=600 kani="--no-assertion-reach-checks" fn="Writer::new"
 //   bound="64-octet buffer with arbitrary prior contents, every usize limit; unwind 14"
 //   sym="buf:[u8;64], limit:usize"
 #[kani::proof]
@@ -328,7 +328,7 @@ fn set_limit_then_rr<const E: bool>() {
     core::mem::forget(q);
 }
 
-// @harness props=C12 tier=quick mem=4 t=900 fn="Writer::set_limit,Writer::add_question,Writer::add_answer_rr,Writer::add_rr,Writer::with_rollback,Writer::try_push,Writer::finish"
+// @harness props=C12 tier=quick mem=4 t=900 kani="--no-assertion-reach-checks" fn="Writer::set_limit,Writer::add_question,Writer::add_answer_rr,Writer::add_rr,Writer::with_rollback,Writer::try_push,Writer::finish"
 //   bound="buffer 64; question a. A IN; every initial limit and every set_limit argument (usize); then one 15-octet root-owned A record with symbolic TTL and RDATA; unwind 8"
 //   sym="l0:usize, x:usize, ttl:u32, rdata:[u8;4], probe<64" stubs="S8"
 #[kani::proof]
@@ -338,7 +338,7 @@ fn c12_set_limit_plain() {
     set_limit_then_rr::<false>();
 }
 
-// @harness props=C12 tier=quick mem=4 t=900 fn="Writer::set_edns,Writer::set_limit,Writer::add_question,Writer::add_answer_rr,Writer::add_rr,Writer::finish"
+// @harness props=C12 tier=quick mem=4 t=900 kani="--no-assertion-reach-checks" fn="Writer::set_edns,Writer::set_limit,Writer::add_question,Writer::add_answer_rr,Writer::add_rr,Writer::finish"
 //   bound="as c12_set_limit_plain with an 11-octet OPT reservation made first; unwind 8"
 //   sym="l0:usize, x:usize, ttl:u32, rdata:[u8;4], probe<64" stubs="S8"
 #[kani::proof]
@@ -348,7 +348,7 @@ fn c12_set_limit_edns() {
     set_limit_then_rr::<true>();
 }
 
-// @harness props=C12 tier=quick mem=3 t=600 fn="Writer::try_push,Writer::write"
+// @harness props=C12 tier=quick mem=3 t=600 kani="--no-assertion-reach-checks" fn="Writer::try_push,Writer::write"
 //   bound="buffer 32 with arbitrary contents; every valid (cursor, available, limit); data of every length 0..=6; unwind 8"
 //   sym="buf:[u8;32], l0:usize, cursor, data:[u8;6], len<=6, probe<32"
 #[kani::proof]
@@ -393,7 +393,7 @@ fn c12_try_push_atomic() {
     assert_invariant(&w, 32);
 }
 
-// @harness props=C12,C13 tier=quick mem=3 t=600 fn="Writer::with_rollback,Writer::try_push"
+// @harness props=C12,C13 tier=quick mem=3 t=600 kani="--no-assertion-reach-checks" fn="Writer::with_rollback,Writer::try_push"
 //   bound="buffer 32; state after new + fabricated anchors; closure that moves section, cursor and all three anchors and pushes 0..=4 octets, failing or not (symbolic); unwind 8"
 //   sym="l0:usize, fail:bool, len<=4, data:[u8;4], probe<32"
 #[kani::proof]
@@ -445,7 +445,7 @@ fn c12_with_rollback_restores() {
 // 2. header fields and the extended RCODE
 // --------------------------------------------------------------------------
 
-// @harness props=C12 tier=quick mem=3 t=600 fn="Writer::set_id,Writer::set_qr,Writer::set_opcode,Writer::set_aa,Writer::set_tc,Writer::set_rd,Writer::set_ra,Writer::set_rcode,Writer::id,Writer::qr,Writer::opcode,Writer::aa,Writer::tc,Writer::rd,Writer::ra,Writer::rcode,Writer::extended_rcode,Writer::finish"
+// @harness props=C12 tier=quick mem=3 t=600 kani="--no-assertion-reach-checks" fn="Writer::set_id,Writer::set_qr,Writer::set_opcode,Writer::set_aa,Writer::set_tc,Writer::set_rd,Writer::set_ra,Writer::set_rcode,Writer::id,Writer::qr,Writer::opcode,Writer::aa,Writer::tc,Writer::rd,Writer::ra,Writer::rcode,Writer::extended_rcode,Writer::finish"
 //   bound="12-octet message; every field set twice (first to an arbitrary value, then to the final one) in a fixed order; all values of all fields; unwind 14"
 //   sym="id:2xu16, opcode:2x0..15, rcode:2x0..15, six flag bits 2x"
 #[kani::proof]
@@ -502,7 +502,7 @@ fn c12_header_fields() {
     kani::cover!(op[1] == 15 && rc[1] == 15 && fl[1][0] && !fl[0][0], "all-ones fields over a cleared first round");
 }
 
-// @harness props=C12 tier=quick mem=3 t=600 fn="Writer::set_extended_rcode,Writer::extended_rcode,Writer::finish"
+// @harness props=C12 tier=quick mem=3 t=600 kani="--no-assertion-reach-checks" fn="Writer::set_extended_rcode,Writer::extended_rcode,Writer::finish"
 //   bound="12-octet non-EDNS message with an arbitrary RCODE already set; every u16 extended RCODE; unwind 14"
 //   sym="first:0..15, v:u16"
 #[kani::proof]
@@ -578,7 +578,7 @@ fn edns_rcode<const THEN_RCODE: bool>() {
     kani::cover!(r.is_ok() && v >= 16 && v < 2048, "extended RCODE between 16 and 2047");
 }
 
-// @harness props=C12 tier=quick mem=4 t=900 fn="Writer::set_edns,Writer::set_extended_rcode,Writer::extended_rcode,Writer::finish,Writer::add_rr,Ttl::from"
+// @harness props=C12 tier=quick mem=4 t=900 kani="--no-assertion-reach-checks" fn="Writer::set_edns,Writer::set_extended_rcode,Writer::extended_rcode,Writer::finish,Writer::add_rr,Ttl::from"
 //   bound="32-octet buffer, no question; every u16 payload size, every u16 extended RCODE (all 4096 valid ones and all refused ones), every ID; unwind 8"
 //   sym="payload:u16, v:u16, id:u16"
 #[kani::proof]
@@ -587,7 +587,7 @@ fn c12_edns_extended_rcode() {
     edns_rcode::<false>();
 }
 
-// @harness props=C12 tier=quick mem=4 t=900 fn="Writer::set_edns,Writer::set_extended_rcode,Writer::set_rcode,Writer::finish"
+// @harness props=C12 tier=quick mem=4 t=900 kani="--no-assertion-reach-checks" fn="Writer::set_edns,Writer::set_extended_rcode,Writer::set_rcode,Writer::finish"
 //   bound="as c12_edns_extended_rcode, followed by set_rcode(any of 16): upper bits must be cleared; unwind 8"
 //   sym="payload:u16, v:u16, id:u16, low:0..15"
 #[kani::proof]
@@ -600,7 +600,7 @@ fn c12_edns_set_rcode_clears_extension() {
 // Stub S8 is the same function as Writer::write
 // --------------------------------------------------------------------------
 
-// @harness props=C12 tier=quick mem=4 t=900 fn="Writer::write,Writer::write_u16"
+// @harness props=C12 tier=quick mem=4 t=900 kani="--no-assertion-reach-checks" fn="Writer::write,Writer::write_u16"
 //   bound="64-octet buffer with arbitrary contents, every position (usize), every data length 0..=40 with arbitrary octets, in-bounds or not (both must panic alike: the out-of-bounds case is excluded by assumption and reported here); unwind 42"
 //   sym="buf:[u8;64], position:usize, data:[u8;40], len<=40, probe<64"
 #[kani::proof]
@@ -925,7 +925,9 @@ macro_rules! done {
 struct Out {
     /// the last operation was refused and rolled back
     truncated: bool,
-    /// compression pointers in the finished message
+    /// compression pointers FOLLOWED while decoding all names of the
+    /// finished message (a pointer to a name that itself ends in a pointer
+    /// counts twice)
     pointers: usize,
     /// final length
     n: usize,
@@ -1014,7 +1016,7 @@ fn c12_prog_q_mx_standard() {
     kani::cover!(o.truncated, "record truncated and rolled back");
 }
 
-// @harness props=C12,C13 tier=quick mem=4 t=1500 kani="--no-assertion-reach-checks" fn="Writer::add_question,Writer::add_answer_rr,Writer::add_rr,Writer::write_compressed_unhinted_name,Writer::set_limit,Writer::finish,Rdata::components"
+// @harness props=C12,C13 tier=thorough mem=4 t=1500 kani="--no-assertion-reach-checks" fn="Writer::add_question,Writer::add_answer_rr,Writer::add_rr,Writer::write_compressed_unhinted_name,Writer::set_limit,Writer::finish,Rdata::components"
 //   bound="as c12_prog_q_mx_standard in CasePreserving mode; unwind 8"
 //   sym="5 case bits, qtype, qclass, limit:usize, ttl:u32, pref:2 octets, probe<64" stubs="S8"
 #[kani::proof]
@@ -1104,7 +1106,7 @@ fn c12_prog_hints_standard() {
     kani::cover!(o.truncated, "second record truncated and rolled back");
 }
 
-// @harness props=C12,C13 tier=quick mem=4 t=1500 kani="--no-assertion-reach-checks" fn="Writer::add_question,Writer::add_answer_rr,Writer::add_rr,Writer::write_hinted_name,Writer::write_compressed_unhinted_name,Writer::set_limit,Writer::finish"
+// @harness props=C12,C13 tier=thorough mem=4 t=1500 kani="--no-assertion-reach-checks" fn="Writer::add_question,Writer::add_answer_rr,Writer::add_rr,Writer::write_hinted_name,Writer::write_compressed_unhinted_name,Writer::set_limit,Writer::finish"
 //   bound="as c12_prog_hints_standard in CasePreserving mode (hints are ignored, names compared exactly); unwind 8"
 //   sym="7 case bits, qtype, qclass, limit:usize, 2 ttl, rdata:[u8;4], probe<64" stubs="S8"
 #[kani::proof]
@@ -1192,7 +1194,7 @@ fn c13_prog_srv_unknown_standard() {
     kani::cover!(o.truncated, "unknown-type record truncated and rolled back");
 }
 
-// @harness props=C12,C13 tier=quick mem=4 t=1500 kani="--no-assertion-reach-checks" fn="Writer::add_question,Writer::add_answer_rr,Writer::add_additional_rr,Writer::add_rr,Writer::write_compressed_unhinted_name,Writer::write_uncompressed_name,Writer::finish,Rdata::components"
+// @harness props=C12,C13 tier=thorough mem=4 t=1500 kani="--no-assertion-reach-checks" fn="Writer::add_question,Writer::add_answer_rr,Writer::add_additional_rr,Writer::add_rr,Writer::write_compressed_unhinted_name,Writer::write_uncompressed_name,Writer::finish,Rdata::components"
 //   bound="as c13_prog_srv_unknown_standard in CasePreserving mode; unwind 8"
 //   sym="5 case bits, qtype, qclass, limit:usize, 2 ttl, 7 RDATA octets, probe<64" stubs="S8"
 #[kani::proof]
@@ -1314,7 +1316,7 @@ fn prog_rrset<const M: u8>() -> Out {
     last_then_done!(w, buf, e, q, add_set2(&mut w, &ra, &rb, &raw, Hint::Qname, true, probe), ra, rb)
 }
 
-// @harness props=C12,C13 tier=quick mem=5 t=1800 kani="--no-assertion-reach-checks" fn="Writer::add_question,Writer::add_answer_rrset,Writer::add_rrset,Writer::add_rr,Writer::with_rollback,Writer::write_hinted_name,Writer::write_compressed_unhinted_name,Writer::finish,RdataSet::iter"
+// @harness props=C12,C13 tier=thorough mem=5 t=1800 kani="--no-assertion-reach-checks" fn="Writer::add_question,Writer::add_answer_rrset,Writer::add_rrset,Writer::add_rr,Writer::with_rollback,Writer::write_hinted_name,Writer::write_compressed_unhinted_name,Writer::finish,RdataSet::iter"
 //   bound="buffer 64; question a.b. ; set_limit(any) ; add_answer_rrset(x.b. Hint::Qname, NS, {y., x.y.}) with case bits on x, y ; finish - Standard mode; unwind 8"
 //   sym="4 case bits, qtype, qclass, limit:usize, ttl, probe<64" stubs="S8"
 #[kani::proof]
@@ -1476,8 +1478,8 @@ fn sign4_never(_rr: &PreparedTsigRr, _message: &[u8], _mac: &[u8], _algorithm: A
     loop {}
 }
 
-// @harness props=C12,C13 tier=quick mem=5 t=1800 kani="--no-assertion-reach-checks" fn="Writer::set_tsig,Writer::update_time_signed,Writer::add_question,Writer::add_answer_rr,Writer::set_limit,Writer::finish,Writer::finish_with_mac,PreparedTsigRr::unsigned_len,PreparedTsigRr::unsigned,Rdata::new_tsig"
-//   bound="buffer 64; set_tsig(Unsigned, key k., algorithm h., any time/fudge/original id/error != BADTIME) ; question x. ; set_limit(0) and back to 64 ; a 15-octet record that does not fit beside the 32-octet TSIG reservation ; update_time_signed(any) ; finish; unwind 8"
+// @harness props=C12,C13 tier=thorough mem=6 t=3000 kani="--no-assertion-reach-checks" fn="Writer::set_tsig,Writer::update_time_signed,Writer::add_question,Writer::add_answer_rr,Writer::set_limit,Writer::finish,Writer::finish_with_mac,PreparedTsigRr::unsigned_len,PreparedTsigRr::unsigned,Rdata::new_tsig"
+//   bound="buffer 64, compression Disabled; set_tsig(Unsigned, key k., algorithm h., any time/fudge/original id/error != BADTIME) ; question x. ; set_limit(0) and back to 64 ; a 15-octet record that does not fit beside the 32-octet TSIG reservation ; update_time_signed(any) ; finish; unwind 8"
 //   sym="case bit, 2x6 time octets, fudge, original id, error, qtype, qclass, probe<64" stubs="S8,S9(sign_request/sign_response/sign_subsequent replaced by assert(false): never called in Unsigned mode)"
 #[kani::proof]
 #[kani::unwind(8)]
@@ -1490,6 +1492,12 @@ fn c12_tsig_unsigned() {
     let probe: usize = kani::any();
     kani::assume(probe < 64);
     let mut w = Writer::new(&mut buf, 64).unwrap();
+    // Compression disabled: finish_with_mac moves the TSIG state out with
+    // Option::take (a memcpy), after which every field of it - name lengths
+    // included - is symbolic to CBMC; letting the key name go through the
+    // compressor's scan on top of that did not leave symbolic execution in
+    // 100 minutes.
+    w.set_compression_mode(CompressionMode::Disabled);
     let key: Box<LowercaseName> = name_view(&[2, 0, 2, 1, b'k', 0]).to_owned().into();
     let alg: Box<LowercaseName> = name_view(&[2, 0, 2, 1, b'h', 0]).to_owned().into();
     let t1: [u8; 6] = kani::any();
@@ -1701,7 +1709,7 @@ fn c13_scan_equal_length_standard() {
     kani::cover!(o.pointers == 2 && o.n == 46 + 2 + 12, "compressee replaced by one pointer");
 }
 
-// @harness props=C13,C12 tier=quick mem=4 t=1500 kani="--no-assertion-reach-checks" fn="Writer::write_compressed_unhinted_name,Writer::write_hinted_name,Writer::write_uncompressed_name,Writer::add_rr"
+// @harness props=C13,C12 tier=thorough mem=4 t=1500 kani="--no-assertion-reach-checks" fn="Writer::write_compressed_unhinted_name,Writer::write_hinted_name,Writer::write_uncompressed_name,Writer::add_rr"
 //   bound="as c13_scan_equal_length_standard in CasePreserving mode; unwind 8"
 //   sym="letter choice + 2 case bits, qtype, qclass, 2 ttl, 8 RDATA octets, probe<64" stubs="S8"
 #[kani::proof]
@@ -1786,7 +1794,7 @@ fn scan_b<const M: u8, const K: u8>() -> Out {
     }
 }
 
-// @harness props=C13,C12 tier=quick mem=5 t=1800 kani="--no-assertion-reach-checks" fn="Writer::write_compressed_unhinted_name,Writer::write_unhinted_name,Writer::add_rr,Rdata::components"
+// @harness props=C13,C12 tier=thorough quick=C13 mem=5 t=1800 kani="--no-assertion-reach-checks" fn="Writer::write_compressed_unhinted_name,Writer::write_unhinted_name,Writer::add_rr,Rdata::components"
 //   bound="buffer 64, Standard mode; priors: owner anchor at the QNAME's label b (2 labels) and NS name a.b. written 01 a + pointer (3 labels), converging on offset 14; compressee X.Y. (equal length); unwind 8"
 //   sym="2 case bits, qtype, qclass, 2 ttl, 4 RDATA octets, probe<64" stubs="S8"
 #[kani::proof]
@@ -1794,10 +1802,11 @@ fn scan_b<const M: u8, const K: u8>() -> Out {
 #[kani::stub(Writer::write, write_model)]
 fn c13_scan_converging_equal_standard() {
     let o = scan_b::<M_STD, 0>();
-    kani::cover!(o.pointers == 3 && o.n == 37 + 2 + 14, "compressee is one pointer to the NS name, itself compressed");
+    // (pointers counts pointers FOLLOWED while decoding: 1 owner b., 1 NS name, 2 compressee)
+    kani::cover!(o.pointers == 4 && o.n == 37 + 2 + 14, "compressee is one pointer to the NS name, itself compressed");
 }
 
-// @harness props=C13,C12 tier=quick mem=5 t=1800 kani="--no-assertion-reach-checks" fn="Writer::write_compressed_unhinted_name,Writer::write_unhinted_name,Writer::add_rr,Rdata::components"
+// @harness props=C13,C12 tier=thorough mem=5 t=1800 kani="--no-assertion-reach-checks" fn="Writer::write_compressed_unhinted_name,Writer::write_unhinted_name,Writer::add_rr,Rdata::components"
 //   bound="as c13_scan_converging_equal_standard in CasePreserving mode; unwind 8"
 //   sym="2 case bits, qtype, qclass, 2 ttl, 4 RDATA octets, probe<64" stubs="S8"
 #[kani::proof]
@@ -1809,7 +1818,7 @@ fn c13_scan_converging_equal_casepreserving() {
     kani::cover!(o.pointers == 2 && o.n == 37 + 5 + 14, "last label differs in case: written in full");
 }
 
-// @harness props=C13,C12 tier=quick mem=5 t=1800 kani="--no-assertion-reach-checks" fn="Writer::write_compressed_unhinted_name,Writer::write_unhinted_name,Writer::add_rr,Rdata::components"
+// @harness props=C13,C12 tier=thorough quick=C13 mem=5 t=1800 kani="--no-assertion-reach-checks" fn="Writer::write_compressed_unhinted_name,Writer::write_unhinted_name,Writer::add_rr,Rdata::components"
 //   bound="as c13_scan_converging_equal_standard with the 2-label compressee Y. (both priors are longer or equal: the skip loop follows the pointer inside the NS name); unwind 8"
 //   sym="1 case bit, qtype, qclass, 2 ttl, 4 RDATA octets, probe<64" stubs="S8"
 #[kani::proof]
@@ -1828,5 +1837,5 @@ fn c13_scan_converging_shorter_standard() {
 #[kani::stub(Writer::write, write_model)]
 fn c13_scan_converging_longer_standard() {
     let o = scan_b::<M_STD, 2>();
-    kani::cover!(o.pointers == 3 && o.n == 37 + 4 + 14, "compressee keeps z and points to the NS name");
+    kani::cover!(o.pointers == 4 && o.n == 37 + 4 + 14, "compressee keeps z and points to the NS name");
 }
